@@ -17,9 +17,10 @@ def main():
         print('setup: shared core failed to build')
         return 1
     failed = []
+    ready = set((VERIF / 'tools' / 'ready.txt').read_text().split())
     for p in sorted(Path(__file__).parent.glob('c[0-9][0-9].py')):
         pid = p.stem.upper()
-        if not (VERIF / 'harness' / 'meta' / (pid + '.json')).exists():
+        if pid not in ready or not (VERIF / 'harness' / 'meta' / (pid + '.json')).exists():
             continue
         try:
             mod = importlib.import_module('harness.' + p.stem)
